@@ -8,6 +8,14 @@ package main
 //	                       r: 0 = Required left unset, 1 = Required:true, 2 = Required:false; m: 0 = tag lookup,
 //	                       1 = ExtractHandler only, 2 = ExtractHandler + the scanner's tag name) scans a run-time struct
 //	                       whose field carries the text; observed: the property that arrives in the registry
+//	scenario  `H <m><r><w> <hexT> <ops> <hexT2>` → a HISTORY: property A is created from text T, its arguments are edited
+//	                       (ops: `-` or `,`-joined <k><hexname>:<hexitem>/<hexitem>…, k = S Args().Set | A Args().Add | s SetArg |
+//	                       a AddArg), property B is created from text T2 (the same text, or another one).
+//	                       m = d: both through NewProperty; s: A and B are two fields of ONE component, scanned once by a
+//	                       user-defined scanner <r><w> (as in U) — B exists before the edit and is read after it; t: two scans, two
+//	                       registries, two scanner instances (B created after the edit); a: two real applications in this
+//	                       process (`wire` tag on a point nobody can fill; A is edited by a user post-processor of the first
+//	                       application). observed: `<A after the edits> | <B>` (+ ` | <start1> <start2>` for m = a)
 //	observation          `<tagval> <args> <required>` | `panic`
 //
 // Oracles (evaluated on the real code only, independent of the model):
@@ -15,7 +23,12 @@ package main
 //   - structured tags (generated from the grammar) parse to exactly what was rendered;
 //   - IsRequired() is false iff an argument named required/Required lists the item `false`;
 //   - through a scanner (built-in or user-defined, whatever its Required field) the point is optional only when the
-//     tag TEXT says required=false (tag-scan-required, tag-scan-required-user).
+//     tag TEXT says required=false (tag-scan-required, tag-scan-required-user);
+//   - what a tag parses to is a function of the tag TEXT: after any history of edits to OTHER properties' arguments a
+//     property created from text T2 is exactly what T2 says — equal to the property the same route gave before the edits
+//     and, for well-formed text, to what the harness' own reader (tagReadOwn, not the library's parser) reads off the
+//     text (tag-history); an application whose only point has no candidate starts only when the point's tag text says
+//     required=false, whatever happened in earlier applications of the process (tag-history-start).
 
 import (
 	"fmt"
@@ -24,10 +37,12 @@ import (
 	"strconv"
 	"strings"
 
+	"github.com/go-kid/ioc/app"
 	"github.com/go-kid/ioc/component_definition"
 	"github.com/go-kid/ioc/container"
 	"github.com/go-kid/ioc/container/processors"
 	"github.com/go-kid/ioc/container/support"
+	"github.com/go-kid/ioc/syslog"
 
 	"verifharness/internal/hx"
 )
@@ -382,11 +397,570 @@ func runTagU(cfg, text string, exp *tagExpect, tags []string, w *hx.Writer) {
 	w.Put(hx.Case{Scn: "U " + cfg + " " + hx.Hex(text), Obs: obs, Oracle: fail, Tags: tags})
 }
 
+/* ---------- histories (scenario H) ---------- */
+
+// tagOp: one edit of a property's arguments through the public API
+type tagOp struct {
+	kind  byte // S Args().Set | A Args().Add | s SetArg | a AddArg
+	name  string
+	items []string
+}
+
+func encodeTagOps(ops []tagOp) string {
+	if len(ops) == 0 {
+		return "-"
+	}
+	var parts []string
+	for _, o := range ops {
+		var its []string
+		for _, it := range o.items {
+			its = append(its, hx.Hex(it))
+		}
+		parts = append(parts, string(o.kind)+hx.Hex(o.name)+":"+strings.Join(its, "/"))
+	}
+	return strings.Join(parts, ",")
+}
+
+func decodeTagOps(s string) ([]tagOp, bool) {
+	if s == "-" {
+		return nil, true
+	}
+	var ops []tagOp
+	for _, p := range strings.Split(s, ",") {
+		if len(p) < 2 || strings.IndexByte("SAsa", p[0]) < 0 {
+			return nil, false
+		}
+		nv := strings.Split(p[1:], ":")
+		if len(nv) != 2 {
+			return nil, false
+		}
+		name, err := hx.UnHex(nv[0])
+		if err != nil {
+			return nil, false
+		}
+		o := tagOp{kind: p[0], name: name}
+		if nv[1] != "" {
+			for _, h := range strings.Split(nv[1], "/") {
+				it, err := hx.UnHex(h)
+				if err != nil {
+					return nil, false
+				}
+				o.items = append(o.items, it)
+			}
+		}
+		ops = append(ops, o)
+	}
+	return ops, true
+}
+
+func applyTagOp(p *component_definition.Property, o tagOp) {
+	switch o.kind {
+	case 'S':
+		p.Args().Set(component_definition.ArgType(o.name), o.items...)
+	case 'A':
+		p.Args().Add(component_definition.ArgType(o.name), o.items...)
+	case 's':
+		p.SetArg(component_definition.ArgType(o.name), o.items...)
+	case 'a':
+		p.AddArg(component_definition.ArgType(o.name), o.items...)
+	}
+}
+
+// tagSnap: a deep copy of what a property says at one moment
+type tagSnap struct {
+	val  string
+	args map[string][]string
+	req  bool
+}
+
+func snapProperty(p *component_definition.Property) tagSnap {
+	sn := tagSnap{val: p.TagVal, args: map[string][]string{}, req: p.IsRequired()}
+	for k, v := range propArgs(p) {
+		sn.args[k] = append([]string{}, v...)
+	}
+	return sn
+}
+
+func (sn tagSnap) String() string {
+	return fmt.Sprintf("value %q args %s required=%v", sn.val, scanShowArgsPlain(sn.args), sn.req)
+}
+
+// sameTagArgs: the same names with the same items (a nil and an empty item list are the same thing)
+func sameTagArgs(a, b map[string][]string) bool {
+	if len(a) != len(b) {
+		return false
+	}
+	for k, v := range a {
+		w, ok := b[k]
+		if !ok || len(v) != len(w) {
+			return false
+		}
+		for i := range v {
+			if v[i] != w[i] {
+				return false
+			}
+		}
+	}
+	return true
+}
+
+// withoutMarker: the arguments minus the bare `Required` marker (no items) a scanner with Required=true stores on a
+// property whose tag has no required argument
+func withoutMarker(m map[string][]string) map[string][]string {
+	out := map[string][]string{}
+	for k, v := range m {
+		if k == "Required" && len(v) == 0 {
+			continue
+		}
+		out[k] = v
+	}
+	return out
+}
+
+// tagSplitTop splits s at every sep that is outside brackets; ok=false when a closing bracket has no opening one or a
+// bracket stays open (the library counts { [ ( alike, so does this reader)
+func tagSplitTop(s string, sep byte) ([]string, bool) {
+	var out []string
+	depth, start := 0, 0
+	for i := 0; i < len(s); i++ {
+		switch c := s[i]; {
+		case c == '{' || c == '[' || c == '(':
+			depth++
+		case c == '}' || c == ']' || c == ')':
+			if depth == 0 {
+				return nil, false
+			}
+			depth--
+		case c == sep && depth == 0:
+			out = append(out, s[start:i])
+			start = i + 1
+		}
+	}
+	return append(out, s[start:]), depth == 0
+}
+
+// tagReadOwn: the harness' own reading of a WELL-FORMED tag text (the form the property's faithful part speaks about):
+// the text before the first top-level comma is the value, every following segment is `name` or `name=item item…` (the
+// first `=` ends the name, top-level blanks separate the items), a repeated name keeps the last. ok=false for text
+// outside the form (unbalanced brackets, an empty name, a bracket in a name, a name starting with a non-ASCII byte).
+func tagReadOwn(text string) (*tagExpect, bool) {
+	segs, ok := tagSplitTop(text, ',')
+	if !ok {
+		return nil, false
+	}
+	exp := &tagExpect{val: segs[0]}
+	pos := map[string]int{}
+	for _, seg := range segs[1:] {
+		a := tagArg{name: seg, items: []string{""}}
+		if i := strings.IndexByte(seg, '='); i >= 0 {
+			a.name = seg[:i]
+			if a.items, ok = tagSplitTop(seg[i+1:], ' '); !ok {
+				return nil, false
+			}
+		}
+		if a.name == "" || a.name[0] >= 0x80 || strings.ContainsAny(a.name, "{[(}])") {
+			return nil, false
+		}
+		if j, dup := pos[upFirst(a.name)]; dup {
+			exp.args[j] = a
+			continue
+		}
+		pos[upFirst(a.name)] = len(exp.args)
+		exp.args = append(exp.args, a)
+	}
+	return exp, true
+}
+
+func (e *tagExpect) argMap() map[string][]string {
+	m := map[string][]string{}
+	for _, a := range e.args {
+		m[upFirst(a.name)] = a.items
+	}
+	return m
+}
+
+// an injection point type nobody implements
+type tagNobody interface{ tagNobodyImplementsThis() }
+
+// tagEditor: a user post-processor (cf. the InstantiationAware processors of the library) that edits the arguments of
+// the `wire` property of ONE component through the public API and writes down what it then reads
+type tagEditor struct {
+	processors.DefaultInstantiationAwareComponentPostProcessor
+	target any
+	ops    []tagOp
+	seen   []string
+	snaps  []tagSnap
+}
+
+func (e *tagEditor) Order() int { return 1 }
+
+func (e *tagEditor) PostProcessAfterInstantiation(component any, componentName string) (bool, error) {
+	return true, nil
+}
+
+func (e *tagEditor) PostProcessProperties(properties []*component_definition.Property, component any, componentName string) ([]*component_definition.Property, error) {
+	if component != e.target {
+		return nil, nil
+	}
+	for _, p := range properties {
+		if p.Tag == "wire" && p.StructField.Name == "F" {
+			for _, o := range e.ops {
+				applyTagOp(p, o)
+			}
+			e.seen = append(e.seen, obsProperty(p))
+			e.snaps = append(e.snaps, snapProperty(p))
+		}
+	}
+	return nil, nil
+}
+
+// tagFieldStruct: a run-time struct type with one field per text, F, G, …, each tagged key:"text"; ok=false when
+// reflect.StructTag does not read a quoted text back (not a container matter)
+func tagFieldStruct(key string, ft reflect.Type, texts ...string) (reflect.Type, bool) {
+	var fields []reflect.StructField
+	for i, t := range texts {
+		fields = append(fields, reflect.StructField{Name: string(rune('F' + i)), Type: ft, Tag: reflect.StructTag(key + ":" + strconv.Quote(t))})
+	}
+	st := reflect.StructOf(fields)
+	for i, t := range texts {
+		if v, found := st.Field(i).Tag.Lookup(key); !found || v != t {
+			return nil, false
+		}
+	}
+	return st, true
+}
+
+// tagScanFields runs a NEW user-defined scanner <cfg> over a new component with one field per text in a NEW registry and
+// returns the properties of the fields in field order
+func tagScanFields(cfg string, texts ...string) ([]*component_definition.Property, bool, string) {
+	scanner, key := newUserScanner(cfg)
+	st, ok := tagFieldStruct(key, reflect.TypeOf((*fmt.Stringer)(nil)).Elem(), texts...)
+	if !ok {
+		return nil, false, ""
+	}
+	reg := support.DefaultDefinitionRegistry()
+	if err := scanner.PostProcessDefinitionRegistry(reg, reflect.New(st).Interface(), "c"); err != nil {
+		return nil, true, "FAIL tag-scan-user scanning failed: " + err.Error()
+	}
+	out := make([]*component_definition.Property, len(texts))
+	for _, p := range reg.GetMetaByName("c").GetAllProperties() {
+		if i := int(p.StructField.Name[0] - 'F'); len(p.StructField.Name) == 1 && i >= 0 && i < len(out) {
+			out[i] = p
+		}
+	}
+	for _, p := range out {
+		if p == nil {
+			return nil, true, "FAIL tag-scan-user a tagged field produced no property (scanner " + cfg + ")"
+		}
+	}
+	return out, true, ""
+}
+
+// tagStartApp starts a real application around one component whose field F (type tagNobody: no candidate can exist)
+// carries wire:"text"; the editor is registered with it. ok=false: the quoted text is not read back by reflect.StructTag
+func tagStartApp(text string, ed *tagEditor) (outcome string, ok bool) {
+	st, ok := tagFieldStruct("wire", reflect.TypeOf((*tagNobody)(nil)).Elem(), text)
+	if !ok {
+		return "", false
+	}
+	comp := reflect.New(st).Interface()
+	ed.target = comp
+	if err := app.NewApp().Run(app.LogLevel(syslog.LvPanic), app.SetComponents(comp, ed)); err != nil {
+		return "err", true
+	}
+	return "ok", true
+}
+
+func tagAppText(s string) bool { return !strings.ContainsAny(s, "$#") }
+
+func validHist(mode byte, cfg, t, t2 string) bool {
+	switch mode {
+	case 'd':
+		return cfg == "00"
+	case 's', 't':
+		return validUserCfg(cfg)
+	case 'a':
+		// the value part of a wire tag goes through the configuration-quote and expression processors: keep to text they pass over
+		return cfg == "10" && tagAppText(t) && tagAppText(t2)
+	}
+	return false
+}
+
+// runTagH runs one history on the real code and evaluates the property on what it observes (see the header).
+// exp2 = what the generator knows text t2 to say (nil: the harness reads the text itself when it is well-formed).
+func runTagH(mode byte, cfg, t string, ops []tagOp, t2 string, exp2 *tagExpect, tags []string, w *hx.Writer) {
+	if !validHist(mode, cfg, t, t2) {
+		return
+	}
+	c := hx.Case{Scn: "H " + string(mode) + cfg + " " + hx.Hex(t) + " " + encodeTagOps(ops) + " " + hx.Hex(t2), Tags: tags}
+	var a, b *component_definition.Property
+	var obsA, obsB, starts, fail string
+	var before, after tagSnap // B's text through the same route before the edits; B itself after them
+	scanned := mode != 'd'
+	skip := false
+	pan := hx.Guard(func() {
+		switch mode {
+		case 'd':
+			mk := func(s string) *component_definition.Property {
+				return component_definition.NewProperty(nil, component_definition.PropertyTypeComponent, "wire", s)
+			}
+			before = snapProperty(mk(t2))
+			a = mk(t)
+			for _, o := range ops {
+				applyTagOp(a, o)
+			}
+			obsA = obsProperty(a)
+			b = mk(t2)
+		case 't':
+			pre, ok, f := tagScanFields(cfg, t2)
+			if !ok || f != "" {
+				skip, fail = !ok, f
+				return
+			}
+			before = snapProperty(pre[0])
+			ps, _, f := tagScanFields(cfg, t)
+			if f != "" {
+				fail = f
+				return
+			}
+			a = ps[0]
+			for _, o := range ops {
+				applyTagOp(a, o)
+			}
+			obsA = obsProperty(a)
+			qs, _, f := tagScanFields(cfg, t2)
+			if f != "" {
+				fail = f
+				return
+			}
+			b = qs[0]
+		case 's':
+			ps, ok, f := tagScanFields(cfg, t, t2)
+			if !ok || f != "" {
+				skip, fail = !ok, f
+				return
+			}
+			a, b = ps[0], ps[1]
+			before = snapProperty(b)
+			for _, o := range ops {
+				applyTagOp(a, o)
+			}
+			obsA = obsProperty(a)
+		case 'a':
+			before = snapProperty(component_definition.NewProperty(nil, component_definition.PropertyTypeComponent, "wire", t2))
+			ed1 := &tagEditor{ops: ops}
+			s1, ok := tagStartApp(t, ed1)
+			if !ok {
+				skip = true
+				return
+			}
+			ed2 := &tagEditor{}
+			s2, ok := tagStartApp(t2, ed2)
+			if !ok {
+				skip = true
+				return
+			}
+			if len(ed1.seen) != 1 || len(ed2.seen) != 1 {
+				fail = fmt.Sprintf("FAIL tag-history-app the wire property of the component was handed to the user post-processor %d / %d times, want once", len(ed1.seen), len(ed2.seen))
+				obsA, obsB, starts = "none", "none", s1+" "+s2
+				return
+			}
+			obsA, obsB, starts = ed1.seen[0], ed2.seen[0], s1+" "+s2
+			after = ed2.snaps[0]
+			// only an explicit required=false makes a point optional: the second application has no editor at work
+			wantOptional := !before.req
+			if e := exp2; e != nil {
+				wantOptional = textSaysOptional(e)
+			} else if e, ok := tagReadOwn(t2); ok {
+				wantOptional = textSaysOptional(e)
+			}
+			if (s2 == "ok") != wantOptional {
+				fail = fmt.Sprintf("FAIL tag-history-start a second application with a point wire:%q that nobody can fill: start=%s, but the tag text has explicit required=false: %v (first application: wire:%q edited by %s)",
+					t2, s2, wantOptional, t, encodeTagOps(ops))
+			}
+		}
+		if b != nil {
+			obsB = obsProperty(b)
+			after = snapProperty(b)
+		}
+	})
+	if skip {
+		return
+	}
+	if pan != nil {
+		c.Obs, c.Oracle = "panic", "FAIL tag-panic history: "+fmt.Sprint(pan)
+		w.Put(c)
+		return
+	}
+	c.Obs = obsA + " | " + obsB
+	if starts != "" {
+		c.Obs += " | " + starts
+	}
+	if fail == "" && obsB != "none" && obsB != "" {
+		fail = tagHistoryOracle(mode, cfg, t, ops, t2, exp2, before, after, scanned)
+	}
+	c.Oracle = fail
+	w.Put(c)
+}
+
+// tagHistoryOracle: B (created from t2 / read after the edits of A) against (1) what the same text gave through the same
+// route BEFORE the edits and (2) what the text says, read by the harness itself
+func tagHistoryOracle(mode byte, cfg, t string, ops []tagOp, t2 string, exp2 *tagExpect, before, after tagSnap, scanned bool) string {
+	hist := fmt.Sprintf("(history %c%s: property A from %q edited by %s)", mode, cfg, t, encodeTagOps(ops))
+	ba, aa := before.args, after.args
+	if mode == 'a' { // `before` was parsed directly, `after` came through the wire scanner (Required=true)
+		ba, aa = withoutMarker(ba), withoutMarker(aa)
+	}
+	if before.val != after.val || before.req != after.req || !sameTagArgs(ba, aa) {
+		return fmt.Sprintf("FAIL tag-history the text %q gave %s before the edits and gives %s after them %s", t2, before, after, hist)
+	}
+	exp := exp2
+	if exp == nil {
+		var ok bool
+		if exp, ok = tagReadOwn(t2); !ok {
+			return ""
+		}
+	}
+	want := exp.argMap()
+	got := after.args
+	if scanned {
+		got, want = withoutMarker(got), withoutMarker(want)
+	}
+	if after.val != exp.val || !sameTagArgs(got, want) || after.req == textSaysOptional(exp) {
+		return fmt.Sprintf("FAIL tag-history the text %q reads value %q args %s optional=%v, the property created from it says %s %s",
+			t2, exp.val, scanShowArgsPlain(exp.argMap()), textSaysOptional(exp), after, hist)
+	}
+	return ""
+}
+
+func tagSalt(r *hx.Rng) string {
+	const al = "abcdefghijklmnopqrstuvwxyz0123456789"
+	b := []byte{'~'}
+	for i := 0; i < 7; i++ {
+		b = append(b, al[r.Intn(len(al))])
+	}
+	return string(b)
+}
+
+// salted: the same structured tag with a per-case salt at the end of its value part, so that no two cases of a run
+// (and no P/S/U case) use the same text: a history of one case cannot reach into another case
+func salted(text string, exp *tagExpect, salt string) (string, *tagExpect) {
+	e := &tagExpect{val: exp.val + salt, args: exp.args}
+	return e.val + text[len(exp.val):], e
+}
+
+func genTagOps(r *hx.Rng, exp *tagExpect) []tagOp {
+	var ops []tagOp
+	for n := 1 + r.Intn(3); n > 0; n-- {
+		o := tagOp{kind: "SSSSSSSSAAAAAssssaaa"[r.Intn(20)]}
+		switch k := r.Intn(20); {
+		case k < 12:
+			o.name = []string{"required", "Required"}[r.Intn(2)]
+			switch r.Intn(8) {
+			case 0, 1, 2, 3:
+				o.items = []string{"false"}
+			case 4:
+				o.items = []string{"true"}
+			case 5:
+				o.items = []string{"false", "true"}
+			case 6:
+				o.items = []string{""}
+			}
+		case k < 15:
+			o.name = []string{"qualifier", "Qualifier"}[r.Intn(2)]
+			o.items = []string{genAtom(r, false)}
+		case k < 18 && exp != nil && len(exp.args) > 0:
+			o.name = exp.args[r.Intn(len(exp.args))].name
+			for m := r.Intn(3); m > 0; m-- {
+				o.items = append(o.items, genBalanced(r, 0, true))
+			}
+		default:
+			o.name = genName(r)
+			if r.P(1, 12) {
+				o.name = ""
+			}
+			for m := r.Intn(3); m > 0; m-- {
+				o.items = append(o.items, genAtom(r, true))
+			}
+		}
+		ops = append(ops, o)
+	}
+	return ops
+}
+
+// genTagH: one history. 70% of the histories create B from the SAME text as A.
+func genTagH(r *hx.Rng, w *hx.Writer) {
+	mode := "dddddddsssssstttttta"[r.Intn(20)]
+	cfg := "00"
+	switch mode {
+	case 's', 't':
+		cfg = string([]byte{"012"[r.Intn(3)], "012"[r.Intn(3)]})
+	case 'a':
+		cfg = "10"
+	}
+	gen := func() (string, *tagExpect) {
+		for tries := 0; ; tries++ {
+			var s string
+			var e *tagExpect
+			if r.P(7, 10) {
+				s, e = genReqTag(r)
+			} else {
+				s, e = genStructured(r)
+			}
+			if mode != 'a' || tagAppText(s) {
+				return salted(s, e, tagSalt(r))
+			}
+			if tries > 50 {
+				return salted("main,required=true", &tagExpect{val: "main", args: []tagArg{{name: "required", items: []string{"true"}}}}, tagSalt(r))
+			}
+		}
+	}
+	t, exp := gen()
+	t2, exp2 := t, exp
+	label := "same-text"
+	switch k := r.Intn(20); {
+	case k < 14:
+	case k < 17: // the same arguments behind another value part
+		label = "same-args"
+		e := &tagExpect{val: exp.val[:len(exp.val)-8] + tagSalt(r), args: exp.args}
+		t2, exp2 = e.val+t[len(exp.val):], e
+	default:
+		label = "other-text"
+		t2, exp2 = gen()
+	}
+	if mode != 'a' && r.P(1, 10) { // arbitrary bytes: no own reading, the before/after comparison still applies
+		label = "bytes"
+		t = genBytes(r) + tagSalt(r)
+		t2, exp, exp2 = t, nil, nil
+	}
+	ops := genTagOps(r, exp)
+	tags := []string{"history", "mode-" + string(mode), label, "R" + cfg[:1]}
+	direct := false
+	for _, o := range ops {
+		if o.kind == 'S' || o.kind == 'A' {
+			direct = true
+		}
+	}
+	if direct {
+		tags = append(tags, "edits-through-Args")
+	}
+	runTagH(mode, cfg, t, ops, t2, exp2, tags, w)
+}
+
 func tagReplay(scn string, w *hx.Writer) {
 	f := strings.Fields(scn)
 	if len(f) == 3 && f[0] == "U" {
 		if s, err := hx.UnHex(f[2]); err == nil {
 			runTagU(f[1], s, nil, []string{"replay"}, w)
+		}
+		return
+	}
+	if len(f) == 5 && f[0] == "H" && len(f[1]) == 3 {
+		t, e1 := hx.UnHex(f[2])
+		ops, ok := decodeTagOps(f[3])
+		t2, e2 := hx.UnHex(f[4])
+		if e1 == nil && e2 == nil && ok {
+			runTagH(f[1][0], f[1][1:], t, ops, t2, nil, []string{"replay"}, w)
 		}
 		return
 	}
@@ -418,6 +992,28 @@ func tagCorpus(w *hx.Writer) {
 		"main, required=false", "main,required=False", "main,qualifier=required=false", "[main,required=false]", "main,required=[false]", "),required=false"} {
 		for _, cfg := range []string{"00", "10", "20", "01", "11", "02", "12"} {
 			runTagU(cfg, s, nil, []string{"corpus"}, w)
+		}
+	}
+	// histories: one property relaxed / edited through Args() or SetArg, another one created from the same text
+	relax := []tagOp{{kind: 'S', name: "required", items: []string{"false"}}}
+	for i, h := range []struct {
+		t   string
+		ops []tagOp
+		t2  string
+	}{
+		{"ledger,required=true", relax, "ledger,required=true"},
+		{"mailer,required=true", []tagOp{{kind: 'A', name: "Required", items: []string{"false"}}}, "mailer,required=true"},
+		{"audit,required=true", []tagOp{{kind: 's', name: "required", items: []string{"false"}}}, "audit,required=true"},
+		{"clock,required=true", []tagOp{{kind: 'a', name: "required", items: []string{"false"}}}, "clock,required=true"},
+		{"store", relax, "store"},
+		{"queue,qualifier=[x y]", []tagOp{{kind: 'S', name: "qualifier", items: []string{"z"}}, {kind: 'A', name: "extra"}}, "queue,qualifier=[x y]"},
+		{"cache,required=false", []tagOp{{kind: 'S', name: "Required", items: []string{"true"}}}, "cache,required=false"},
+		{"index,required", []tagOp{{kind: 'A', name: "required", items: []string{"false"}}}, "index,required"},
+		{"bus,required=true", relax, "bus2,required=true"},
+		{",required=true,x=(a b) c", []tagOp{{kind: 'S', name: "x"}, {kind: 'S', name: ""}, {kind: 'A', name: "\xc3\xa9", items: []string{"", "k"}}}, ",required=true,x=(a b) c"},
+	} {
+		for _, mc := range []string{"d00", "s00", "s10", "s21", "t00", "t10", "t12", "a10"} {
+			runTagH(mc[0], mc[1:], fmt.Sprintf("h%d%s.", i, mc)+h.t, h.ops, fmt.Sprintf("h%d%s.", i, mc)+h.t2, nil, []string{"corpus", "history"}, w)
 		}
 	}
 }
@@ -645,6 +1241,11 @@ func tagGen(rng *hx.Rng, n int, tier string, w *hx.Writer) {
 			runTagS(s, []string{"prop-structured"}, w)
 		default:
 			runTagS(genBytes(r), []string{"prop-bytes"}, w)
+		}
+		// one case in ten is followed by a history (drawn from the case's own stream after it, so the cases above are
+		// what they were before histories existed)
+		if r.P(1, 10) {
+			genTagH(r.Fork(), w)
 		}
 	}
 }
